@@ -57,6 +57,7 @@ def run_jobs(jobs, timeout=3000):
         p = os.path.join(wd, "job%d.json" % i)
         json.dump(job, open(p, "w"))
         lf = open(p + ".log", "w")
+        env = dict(env, NUMBA_CACHE_DIR=core.private_numba_cache("b%d" % i))
         procs.append((subprocess.Popen([PY, "-m", "harness.builder_driver", p], cwd=VERIF, env=env, stdin=subprocess.DEVNULL,
                                        stdout=lf, stderr=subprocess.STDOUT), p, job))
     res = []
